@@ -385,6 +385,21 @@ seed("M.write-error-swallowed", 'C12', 'C12.R5:write:encoded-message-written', '
 seed("M.toolarge-frame-not-returned", 'C09', 'C09.R5:decoded-frame-is-returned[oversized]', "the oversized request is discarded but never returned: no 'too large' answer",
      ('memcrs/src/protocol/binary_connection.rs', '                        return Ok(Some(BinaryRequest::ItemTooLarge(request)));', '                        let _ = request;'))
 
+seed("M.store-len-stuck-at-0", 'C14', 'C14.R2:store:len-is-the-maps', "MemoryStore::len always answers 0: the sweep's empty-store exit resets the usage and nothing is ever evicted",
+     ('memcrs/src/memory_store/store.rs', '    fn len(&self) -> usize {\n        self.memory.len()\n    }', '    fn len(&self) -> usize {\n        0\n    }'))
+seed("M.toolarge-buffered-body-not-dropped", 'C13', 'C13.R3:buffer-first[body>buffered]', "the buffered part of an oversized body stays in the buffer, the whole length is read off the socket",
+     ('memcrs/src/protocol/binary_connection.rs', 'let buffered = cmp::min(body_length, self.buffer.len());', 'let buffered = cmp::min(body_length, 0);'))
+seed("C07.R3.zero-delta-not-stored", 'C07', 'C07.R3:incr:success-stores-once', "incr/decr by 0 answers without storing the normalised text",
+     ('memcrs/src/memcache/store.rs', '                        if increment {\n                            value = value.wrapping_add(delta.delta);', '                        if delta.delta == 0 && header.cas == 0 {\n                            return Ok(DeltaResult { cas: record.header.cas, value });\n                        }\n                        if increment {\n                            value = value.wrapping_add(delta.delta);'))
+seed("C08.R4.flush-in-background", 'C08', 'C08.R4:handler:flush:executes-before-acknowledged', "flush handed to the blocking pool: acknowledged before it has run",
+     ('memcrs/src/memcache_server/handler.rs', '        self.storage.flush(meta);', '        match tokio::runtime::Handle::try_current() {\n            Ok(rt) => {\n                let storage = self.storage.clone();\n                rt.spawn_blocking(move || storage.flush(meta));\n            }\n            Err(_) => self.storage.flush(meta),\n        }'))
+seed("C12.R3.flush-in-background", 'C12', 'C12.R3:sequential:handle', "flush handed to the blocking pool: executed out of order with the requests that follow",
+     ('memcrs/src/memcache_server/handler.rs', '        self.storage.flush(meta);', '        match tokio::runtime::Handle::try_current() {\n            Ok(rt) => {\n                let storage = self.storage.clone();\n                rt.spawn_blocking(move || storage.flush(meta));\n            }\n            Err(_) => self.storage.flush(meta),\n        }'))
+seed("C04.R1.add-rereads", 'C04', 'C04.R1:MemcStore::add:set->get:answer-from-reread', "add answers from a read made after its own store",
+     ('memcrs/src/memcache/store.rs', '            Err(_err) => self.set(key, record),', '            Err(_err) => {\n                let status = self.set(key.clone(), record)?;\n                match self.get(&key) {\n                    Ok(stored) if stored.header.cas != status.cas => Err(CacheError::KeyExists),\n                    _ => Ok(status),\n                }\n            }'))
+seed("C20.R1.timeout-depends-on-slots", 'C20', 'C20.R1:handle:timeout-is-the-configured-one-on-every-path', "idle timeout shortened when no connection slot is free",
+     ('memcrs/src/memcache_server/client_handler.rs', '                Duration::from_secs(self.config.rx_timeout_secs as u64),', '                Duration::from_secs(if self.limit_connections.available_permits() == 0 { self.config.rx_timeout_secs.min(5) } else { self.config.rx_timeout_secs } as u64),'))
+
 # ---------------------------------------------------------------- neutral variants
 neutral("N.rename-local", "rename a local in MemoryStore::set",
         (STORE, "            let cas = self.get_cas_id();\n            record.header.cas = cas;", "            let fresh = self.get_cas_id();\n            let cas = fresh;\n            record.header.cas = cas;"))
